@@ -27,7 +27,8 @@ class Graph:
         if fn.cfg is None:
             raise AnalysisBroken("no CFG for %s" % fn.sig)
         self.fn = fn
-        self.blocks = {b["id"]: b for b in fn.cfg["blocks"]}
+        self.blocks = {b["id"]: dict(b, succ=list(b.get("succ", []))) for b in fn.cfg["blocks"]}
+        self._thread_short_circuits()
         self.el = {}
         self.out = {}
         self.inn = {}
@@ -55,6 +56,42 @@ class Graph:
         for n in fn.all_nodes():
             if n.get("k") in ("goto", "label"):
                 raise AnalysisBroken("%s uses goto; structured path rules refuse to guess" % fn.sig)
+
+    def _thread_short_circuits(self):
+        """`if (a && b)`: clang joins the short-circuit edge of `a` and the value of `b` in one block that then branches on the
+        whole expression. Arriving through the short-circuit edge the outcome is known, so that edge is sent straight to the
+        corresponding successor (for &&: false, for ||: true). Without this a path on which `a` is false could appear to
+        take the then-branch."""
+        for J in self.blocks.values():
+            cid = J.get("cond")
+            succ = J.get("succ", [])
+            if cid is None or len(succ) != 2 or J.get("termk") == "BinaryOperator":
+                continue
+            c = self.fn.nodes.get(cid)
+            c = skip_copies(c) if c else None
+            if not (isinstance(c, dict) and c.get("k") == "binop" and c.get("op") in ("&&", "||")):
+                continue
+            sels = [e for e in J["els"] if e.get("k") == "s"]
+            if len(sels) != 1 or sels[0].get("n") != c.get("id"):
+                continue
+            op = c["op"]
+            spine = set()
+            x = c
+            while isinstance(x, dict) and x.get("k") == "binop" and x.get("op") == op:
+                l = skip_copies(x.get("lhs"))
+                if isinstance(l, dict):
+                    spine.add(l.get("id"))
+                x = l
+            for P in self.blocks.values():
+                if P.get("threaded_cond") in spine and P.get("threaded_val") == (op == "||") and succ[1 if op == "&&" else 0] is not None:
+                    # return path of a spliced helper whose constant result decides the short-circuit
+                    P["succ"] = [succ[1 if op == "&&" else 0] if s_ == J["id"] else s_ for s_ in P["succ"]]
+                    continue
+                if P.get("termk") != "BinaryOperator" or P.get("cond") not in spine or len(P.get("succ", [])) != 2:
+                    continue
+                idx = 1 if op == "&&" else 0
+                if P["succ"][idx] == J["id"] and succ[idx] is not None:
+                    P["succ"][idx] = succ[idx]
 
     def _add(self, e):
         self.out[e.src].append(e)
